@@ -15,9 +15,10 @@ Local Open Scope N_scope.
 Inductive sev := SE (e : ev) | SAdv (tid : nat).
 
 Inductive obs :=
-  Obs (ins outs listen connecting : list addr) (peers : list (N * (N * addr))) (own : option addr)
+| Obs (ins outs listen connecting : list addr) (peers : list (N * (N * addr))) (own : option addr)
       (nextcid : N) (fatal : bool) (status : list outcome)
-      (win_in win_out : nat) (live_in live_out : N).
+      (win_in win_out : nat) (live_in live_out : N)
+| Same.   (* the observation is identical to the one after the previous event *)
 
 Inductive case := CSched (cf : cfg) (steps : list (sev * obs)).
 
@@ -106,15 +107,21 @@ Definition obs_ok (s : sys) (o : obs) : bool :=
       && list_eqb outcome_eqb (map t_out (s_threads s)) status
       && Nat.eqb (window_count s Inbound) win_in && Nat.eqb (window_count s Outbound) win_out
       && (live_count s Inbound =? live_in) && (live_count s Outbound =? live_out)
+  | Same => false
   end.
 
-Fixpoint steps_ok (cf : cfg) (s : sys) (steps : list (sev * obs)) : bool :=
+Definition obs_init : obs := Obs [] [] [] [] [] None 0 false [] 0 0 0 0.
+
+Fixpoint steps_ok (cf : cfg) (s : sys) (prev : obs) (steps : list (sev * obs)) : bool :=
   match steps with
   | [] => true
-  | (e, o) :: r => let s' := apply_sev cf s e in obs_ok s' o && steps_ok cf s' r
+  | (e, o) :: r =>
+      let s' := apply_sev cf s e in
+      let o' := match o with Same => prev | _ => o end in
+      obs_ok s' o' && steps_ok cf s' o' r
   end.
 
 Definition case_ok (c : case) : bool :=
-  match c with CSched cf steps => steps_ok cf sys_init steps end.
+  match c with CSched cf steps => steps_ok cf sys_init obs_init steps end.
 
 Definition mismatches := mism case_ok.
